@@ -168,6 +168,50 @@ func eyeRC(r, c int) M {
 	return m
 }
 
+// symToep0 is the tridiagonal Toeplitz matrix with zero diagonal and unit
+// off-diagonal (the first Givens rotations of the QL/QR sweeps have cosine 0).
+func symToep0(n, _ int) M {
+	m := newM(n, n)
+	for i := 0; i+1 < n; i++ {
+		m.set(i, i+1, 1)
+		m.set(i+1, i, 1)
+	}
+	return m
+}
+
+// symToep2 is the second-difference matrix tridiag(-1, 2, -1).
+func symToep2(n, _ int) M {
+	m := newM(n, n)
+	for i := 0; i < n; i++ {
+		m.set(i, i, 2)
+		if i+1 < n {
+			m.set(i, i+1, -1)
+			m.set(i+1, i, -1)
+		}
+	}
+	return m
+}
+
+// symBlockTiny is block diagonal: a leading block tridiag(1, 3, 1) of order
+// n/2 scaled by 2^-450 followed by the same matrix at unit scale. Its
+// tridiagonal form splits into blocks that Dsteqr/Dsterf rescale differently.
+func symBlockTiny(n, _ int) M {
+	m := newM(n, n)
+	h := n / 2
+	for i := 0; i < n; i++ {
+		s := 1.0
+		if i < h {
+			s = 0x1p-450
+		}
+		m.set(i, i, 3*s)
+		if i+1 < n && i+1 != h {
+			m.set(i, i+1, s)
+			m.set(i+1, i, s)
+		}
+	}
+	return m
+}
+
 var symFamilies = []family{
 	{name: "int", normal: true, gen: symInt, scale: 1},
 	{name: "graded", normal: true, gen: symGraded, scale: 1},
@@ -177,6 +221,9 @@ var symFamilies = []family{
 	{name: "eye", normal: true, gen: eyeRC, scale: 1},
 	{name: "orthdiag", normal: true, gen: symOrthDiag, scale: 1},
 	{name: "wilk", normal: true, gen: symWilk, scale: 1},
+	{name: "toep0", normal: true, gen: symToep0, scale: 1},
+	{name: "toep2", normal: true, gen: symToep2, scale: 1},
+	{name: "blocktiny", normal: true, gen: symBlockTiny, scale: 1},
 	{name: "big", normal: true, gen: symInt, scale: bigScale},
 	{name: "small", normal: true, gen: symInt, scale: smallScale},
 }
@@ -325,6 +372,19 @@ func genBidiagZeros(r, c int) M {
 	return m
 }
 
+// genBidiagToeplitz is upper bidiagonal with constant diagonal 1 and constant
+// off-diagonal -1.
+func genBidiagToeplitz(r, c int) M {
+	m := newM(r, c)
+	for i := 0; i < r && i < c; i++ {
+		m.set(i, i, 1)
+		if i+1 < c {
+			m.set(i, i+1, -1)
+		}
+	}
+	return m
+}
+
 var genFamilies = []family{
 	{name: "int", gen: genInt, scale: 1},
 	{name: "graded", gen: genGraded, scale: 1},
@@ -338,6 +398,7 @@ var genFamilies = []family{
 	{name: "diagsigns", gen: genDiagSigns, scale: 1},
 	{name: "diagneglast", gen: genDiagNegLast, scale: 1},
 	{name: "bidiagzeros", gen: genBidiagZeros, scale: 1},
+	{name: "bitoep", gen: genBidiagToeplitz, scale: 1},
 	{name: "big", gen: genInt, scale: bigScale},
 	{name: "small", gen: genInt, scale: smallScale},
 }
